@@ -315,6 +315,15 @@ def rp(spec, st, sc):
         if (v in spec[2]) != (k == "oneof"):
             raise Reject("validation")
         return v
+    if k == "exprsym":
+        return rp(spec[1], st, sc) ^ spec[2]
+    if k == "expradd":
+        return rp(spec[1], st, sc) + spec[2]
+    if k == "exprvalid":
+        v = rp(spec[1], st, sc)
+        if not v < spec[2]:
+            raise Reject("validation")
+        return v
     if k in ("bits", "bit", "nibble", "octet"):
         w, signed, swapped = _bitsparams(spec, sc)
         if w <= 0:
@@ -467,7 +476,7 @@ def rp(spec, st, sc):
     if k == "switch":
         sub = _switch(spec, sc)
         return None if sub is None else rp(sub, st, sc)
-    if k in ("rebuild", "default", "hex", "hexdump", "docs"):
+    if k in ("rebuild", "default", "hex", "hexdump", "docs", "lazybound"):
         return rp(spec[1], st, sc)
     if k == "prefixed":
         n = rp(spec[1], st, sc)
@@ -838,6 +847,14 @@ def rb(spec, v, sc):
         if (v in spec[2]) != (k == "oneof"):
             raise Reject("validation")
         return rb(spec[1], v, sc)[0], v
+    if k in ("exprsym", "expradd", "exprvalid"):
+        if not isinstance(v, int):
+            raise ForeignError("expression adapter applied to a non-integer (a raw Python error, not the library's)")
+        if k == "exprvalid":
+            if not v < spec[2]:
+                raise Reject("validation")
+            return rb(spec[1], v, sc)[0], v
+        return rb(spec[1], (v ^ spec[2]) if k == "exprsym" else (v - spec[2]), sc)[0], v
     if k in ("bits", "bit", "nibble", "octet"):
         w, signed, swapped = _bitsparams(spec, sc)
         if not isinstance(v, int) or isinstance(v, bool):
@@ -1023,7 +1040,7 @@ def rb(spec, v, sc):
         return rb(spec[1], spec[2] if v is None else v, sc)
     if k in ("hex", "hexdump"):
         return rb(spec[1], v, sc)[0], v
-    if k == "docs":
+    if k in ("docs", "lazybound"):
         return rb(spec[1], v, sc)
     if k == "prefixed":
         data, ret = rb(spec[2], v, sc)
